@@ -43,6 +43,8 @@ type SplitDim struct {
 }
 
 type PropSpec struct {
+	LockSet     string        `json:"lockset"` // name of the native race-replay harness (C10)
+	BuildIsProperty bool      `json:"build_is_property"`
 	ID          string        `json:"id"`
 	Harnesses   []HarnessSpec `json:"harnesses"`
 	Bounds      []string      `json:"bounds"`
